@@ -6,6 +6,7 @@ package interp
 
 import (
 	"fmt"
+	"math"
 	"strconv"
 	"strings"
 )
@@ -330,8 +331,50 @@ func evalOp(op string, w int, p int, a []uint64, aw []int) uint64 {
 		return uint64(signExt(a[0], aw[0])) & m
 	case "concat":
 		return ((a[0] << uint(aw[1])) | a[1]) & m
+	case "fp.lt", "fp.leq", "fp.eq":
+		x, y := bitsToFloat(a[0], p), bitsToFloat(a[1], p)
+		switch op {
+		case "fp.lt":
+			return b2u(x < y)
+		case "fp.leq":
+			return b2u(x <= y)
+		}
+		return b2u(x == y)
+	case "f2f": // p = source width, w = destination width
+		return floatToBits(bitsToFloat(a[0], p), w)
+	case "s2f":
+		if w == 32 {
+			return uint64(math.Float32bits(float32(signExt(a[0], p))))
+		}
+		return math.Float64bits(float64(signExt(a[0], p)))
+	case "u2f":
+		if w == 32 {
+			return uint64(math.Float32bits(float32(a[0])))
+		}
+		return math.Float64bits(float64(a[0]))
 	}
 	panic("evalOp: " + op)
+}
+
+func bitsToFloat(b uint64, w int) float64 {
+	if w == 32 {
+		return float64(math.Float32frombits(uint32(b)))
+	}
+	return math.Float64frombits(b)
+}
+
+func floatToBits(f float64, w int) uint64 {
+	if w == 32 {
+		return uint64(math.Float32bits(float32(f)))
+	}
+	return math.Float64bits(f)
+}
+
+func fpSort(w int) string {
+	if w == 32 {
+		return "(_ to_fp 8 24)"
+	}
+	return "(_ to_fp 11 53)"
 }
 
 func b2u(b bool) uint64 {
@@ -507,7 +550,24 @@ func (t *Term) shallowRef() string {
 	return "t" + strconv.Itoa(t.id)
 }
 
+func (t *Term) fpBody(ref func(*Term) string) (string, bool) {
+	switch t.op {
+	case "fp.lt", "fp.leq", "fp.eq":
+		return fmt.Sprintf("(%s (%s %s) (%s %s))", t.op, fpSort(t.p), ref(t.args[0]), fpSort(t.p), ref(t.args[1])), true
+	case "f2f":
+		return fmt.Sprintf("(fp.to_ieee_bv (%s RNE (%s %s)))", fpSort(t.w), fpSort(t.p), ref(t.args[0])), true
+	case "s2f":
+		return fmt.Sprintf("(fp.to_ieee_bv (%s RNE %s))", fpSort(t.w), ref(t.args[0])), true
+	case "u2f":
+		return fmt.Sprintf("(fp.to_ieee_bv (%s RNE %s))", strings.Replace(fpSort(t.w), "to_fp", "to_fp_unsigned", 1), ref(t.args[0])), true
+	}
+	return "", false
+}
+
 func (t *Term) body() string {
+	if s, ok := t.fpBody((*Term).shallowRef); ok {
+		return s
+	}
 	var sb strings.Builder
 	sb.WriteByte('(')
 	switch t.op {
@@ -531,6 +591,9 @@ func (t *Term) body() string {
 // String renders the term as a closed SMT-LIB expression (debugging / dumps).
 func (t *Term) String() string {
 	if s, ok := t.leafText(); ok {
+		return s
+	}
+	if s, ok := t.fpBody((*Term).String); ok {
 		return s
 	}
 	var sb strings.Builder
